@@ -55,7 +55,8 @@ def run_impl(case):
     runs, cont = [], None
     ks = case["ks"]
     for i, k in enumerate(ks):
-        o = S.run_recipe(case["recipe"], reps=k, continuation=cont, want_continuation=(i < len(ks) - 1))
+        o = S.run_recipe(case["recipe"], reps=k, continuation=cont, want_continuation=(i < len(ks) - 1),
+                         draw_offset=sum(len(r.get("draws", [])) for r in runs))
         cont = o.get("cont")
         runs.append({kk: vv for kk, vv in o.items() if kk != "cont"})
         if "ok" not in o:
@@ -71,7 +72,7 @@ def coq_case(case, obs):
         exp = "(Ok " + C.clist(S.rows_coq(r["ok"]) for r in runs) + ")"
     else:
         exp = f"(Err {C.cerr(runs[-1]['err'])})"
-    return f"CHist PFull {S.recipe_coq(case['recipe'])} {C.clist(C.cnat(k) for k in case['ks'])} {exp}"
+    return f"CHist PFull {S.recipe_coq(case['recipe'], S.obs_draws(obs))} {C.clist(C.cnat(k) for k in case['ks'])} {exp}"
 
 
 def oracle(case, obs):
